@@ -212,6 +212,20 @@ def gen_history(rng, ncmd):
             cmds.append(('b', 'b %d' % rng.range(1, nf), None))
         else:
             cmds.append(('q', 'q', None))
+    # shapes aimed at the bookkeeping: edit / partial own-path write / undo back / quit; edit|w|edit in one line / quit;
+    # edit / write elsewhere / quit; edit / leave the buffer with ! / quit; edit / write / undo / (redo) / quit
+    if rng.chance(1, 3):
+        t = 'f%d.txt' % rng.range(1, nf)
+        shape = rng.choice([
+            [('mod', mod(True), None), ('wpart', rng.choice(['1w', '1,1w', '2,$w']), None), ('u', 'u', None), ('q', 'q', None)],
+            [('wjoin', '%s|w|%s' % (mod(True), mod(True)), None), ('q', 'q', None)],
+            [('mod', mod(), None), ('wother', 'w! %s' % other(), None), ('q', 'q', None)],
+            [('mod', mod(), None), ('eforce', 'e! %s' % t, t), ('q', 'q', None)],
+            [('mod', mod(), None), ('w', 'w', None), ('u', 'u', None), ('q', 'q', None), ('r', 'redo', None), ('q', 'q', None)],
+            [('mod', mod(), None), ('mod', mod(), None), ('u', 'u', None), ('u', 'u', None), ('q', 'q', None)],
+            [('mod', mod(), None), ('wpart', '1w', None), ('u', 'u', None), ('e', 'e %s' % t, t)],
+        ])
+        cmds = shape + cmds[:max(0, ncmd - len(shape))]
     cmds.append(('q', 'q', None))
     return files, cmds
 
